@@ -12,10 +12,18 @@ EpochLedger(ev) ==
         ev.obs.epoch.total = (ev.obs.dist -- prev.dist) ++ ev.pre.expiring_available>>,
      <<"C10.new-epoch-id", ev.obs.epoch.id = prev.epoch.id + 1>> >>
 
+\* "swapped through REGISTERED routes or left untouched": the harness registers routes for uusdc and tokena only, and
+\* only in the configurations whose route is not "noroute"; every other non-distribution asset must stay where it is
+Routed(route) == IF route = "noroute" THEN {} ELSE {"uusdc", "tokena"}
+UnroutedUntouched(ev) ==
+  << <<"C10.assets-without-a-registered-route-left-untouched",
+        \A a \in (Assets \ {Dist}) \ Routed(ev.args.route) :
+          ev.obs.col[a] = prev.col[a] ++ CollectedInto(prev, a, PoolKids \cup VaultKids)>> >>
+
 EvChecks(ev) ==
   CASE ev.ev = "newepoch" ->
          IF ev.res = "ok"
-         THEN EpochChecks(prev, ev.obs, PoolKids \cup VaultKids) \o EpochLedger(ev)
+         THEN EpochChecks(prev, ev.obs, PoolKids \cup VaultKids) \o EpochLedger(ev) \o UnroutedUntouched(ev)
               \* three-asset pools are registered pools too (judged separately: known finding S15)
               \o << <<"C10.trio-pending-fees-collected",
                        \A a \in Assets :
